@@ -21,7 +21,7 @@ Definition endtag_text (buf : list Z) (v : sl) (o : option sl) : Prop :=
 Definition low_rule (buf : list Z) (ty : Z) (tk : option sl) (w : sl) (l' : lexer) : Prop :=
   if (ty =? StartTagT) || (ty =? SvgT) || (ty =? MathT) || (ty =? XmlT) then ltext l' = Some w
   else if ty =? EndTagT then
-    match tk with Some v => w = endtag_name_view buf v /\ endtag_text buf v (ltext l') | None => False end
+    match tk with Some v => (exists tb, w = endtag_name_view tb buf v) /\ endtag_text buf v (ltext l') | None => False end
   else if ty =? AttributeT then (ltext l' = Some w \/ (sn w = 0 /\ lhas l' = true))
   else if ty =? ErrorT then (sn w = 0 \/ (ltext l' = Some w /\ lerr l' = true))
   else sn w = 0.
@@ -326,8 +326,8 @@ Proof.
       split.
       { split; [|right; left; reflexivity]. cbn [opt_within ltext lz]. destruct S2 as (I1 & I2 & I3). lia. }
       split.
-      { exists (endtag_name_view (lbuf (lz l)) v). split; [exact B1|]. destruct B2 as (I1 & I2 & I3). split; [lia|]. split; [lia|]. split; [lia|].
-        unfold low_rule. cbn [Z.eqb orb EndTagT StartTagT SvgT MathT XmlT Pos.eqb]. split; [reflexivity|].
+      { exists (endtag_name_view (tb c) (lbuf (lz l)) v). split; [exact B1|]. destruct B2 as (I1 & I2 & I3). split; [lia|]. split; [lia|]. split; [lia|].
+        unfold low_rule. cbn [Z.eqb orb EndTagT StartTagT SvgT MathT XmlT Pos.eqb]. split; [exists (tb c); reflexivity|].
         destruct S5 as (k & K1 & K2 & K3 & K4). exists t, k. cbn [ltext]. repeat split; try assumption; lia. }
       split; [lia|].
       split.
